@@ -446,6 +446,11 @@ func (br *BoundsRules) checkSlice(fc *FuncCtx, b *ssa.BasicBlock, x *ssa.Slice, 
 			why = append(why, fmt.Sprintf("no guard establishes len(%s) >= %d", ap, k))
 			continue
 		}
+		// the index of a range loop over the same value: 0 <= i < len(X) inside the body
+		if br.inRangeLoopOver(fc, bd, ap) {
+			why = append(why, "bound is the index of the range loop over the same value")
+			continue
+		}
 		// len(X) - v  with guard !(v > len(X)-c)
 		if bo, ok := bd.(*ssa.BinOp); ok && bo.Op == token.SUB {
 			if la := lenArg(bo.X); la != nil && fc.AP(la) == ap {
